@@ -102,11 +102,19 @@ func (s *Scraper) ParseResponse(do func(rows []parser.Row) error) error {
 		}
 	}()
 
-	return parser.ParseStream(s.reader, time.Now().UnixNano()/1e6,
+	err := parser.ParseStream(s.reader, time.Now().UnixNano()/1e6,
 		false,
 		do, func(str string) {
 			s.log.Print(str)
 		})
+	if err == nil {
+		// the stream parser takes some read errors (e.g. "connection reset by peer") for the end
+		// of the body: a body that broke off must not count as a successful scrape
+		if wr, ok := s.reader.(*wrappedReader); ok && wr.readErr != nil {
+			return wr.readErr
+		}
+	}
+	return err
 }
 
 // StatisticsSeriesResult is the samples count in one scrape
